@@ -339,7 +339,7 @@ pub fn exec_direct(store: &mut AnnotationStore, m: &Model, op: &Op) -> ExecResul
             }),
             |_| None,
         ),
-        Op::Reindex | Op::Restart { .. } => ExecResult::Ok(None),
+        Op::Reindex | Op::Restart { .. } | Op::AnnotateFile { .. } => ExecResult::Ok(None),
     }
 }
 
@@ -348,4 +348,125 @@ pub fn trunc(s: &mut String, n: usize) {
     if let Some((i, _)) = s.char_indices().nth(n) {
         s.truncate(i);
     }
+}
+
+
+// ------------------------------------------------------------------ annotations as a STAM JSON file
+
+fn req_id(req: &Req, prefix: &str) -> String {
+    match req {
+        Req::Id(s) => s.clone(),
+        Req::Handle(h) => format!("!{}{}", prefix, h),
+    }
+}
+
+fn offset_json(b: &Cur, e: &Cur) -> serde_json::Value {
+    serde_json::json!({"@type": "Offset", "begin": serde_json::to_value(b.to_cursor()).unwrap(), "end": serde_json::to_value(e.to_cursor()).unwrap()})
+}
+
+fn selector_json(m: &Model, sel: &Sel) -> Option<serde_json::Value> {
+    use serde_json::json;
+    Some(match sel {
+        Sel::Text { r, b, e } => json!({"@type": "TextSelector", "resource": req_id(&m.res_target(r).req, "R"), "offset": offset_json(b, e)}),
+        Sel::Resource { r } => json!({"@type": "ResourceSelector", "resource": req_id(&m.res_target(r).req, "R")}),
+        Sel::DataSet { s } => json!({"@type": "DataSetSelector", "annotationset": req_id(&m.set_target(s).req, "S")}),
+        Sel::Key { s, k } => {
+            let ts = m.set_target(s);
+            let set = ts.uid?;
+            json!({"@type": "DataKeySelector", "annotationset": req_id(&ts.req, "S"), "key": req_id(&m.key_target(set, k).req, "K")})
+        }
+        Sel::Data { s, d } => {
+            let ts = m.set_target(s);
+            let set = ts.uid?;
+            json!({"@type": "AnnotationDataSelector", "annotationset": req_id(&ts.req, "S"), "data": req_id(&m.data_target(set, d).req, "D")})
+        }
+        Sel::Annotation { a, offset } => match offset {
+            Some((b, e)) => json!({"@type": "AnnotationSelector", "annotation": req_id(&m.ann_target(a).req, "A"), "offset": offset_json(b, e)}),
+            None => json!({"@type": "AnnotationSelector", "annotation": req_id(&m.ann_target(a).req, "A")}),
+        },
+        Sel::Multi(v) | Sel::Composite(v) | Sel::Directional(v) => {
+            let mut subs = Vec::new();
+            for x in v {
+                subs.push(selector_json(m, x)?);
+            }
+            json!({"@type": sel.kind(), "selectors": subs})
+        }
+        Sel::Missing => return None,
+    })
+}
+
+/// the file content for `annotate_from_file`; None if a request cannot be written down (ghost references)
+pub fn annotations_json(m: &Model, items: &[(Option<String>, Sel, Vec<DataSpec>)], fault: FileFault) -> Option<Vec<u8>> {
+    use serde_json::json;
+    let mut scratch = m.clone();
+    let mut elements: Vec<String> = Vec::new();
+    for (i, (id, target, data)) in items.iter().enumerate() {
+        let last = i + 1 == items.len();
+        let mut obj = serde_json::Map::new();
+        obj.insert("@type".into(), json!("Annotation"));
+        if let Some(id) = id {
+            obj.insert("@id".into(), json!(id));
+        }
+        match (last, fault) {
+            (true, FileFault::DropTarget) => {}
+            (true, FileFault::Garbage) => {
+                obj.insert("target".into(), json!(42));
+            }
+            _ => {
+                obj.insert("target".into(), selector_json(&scratch, target)?);
+            }
+        }
+        let mut djson = Vec::new();
+        let mut fx = Effects::default();
+        let mut dscratch = scratch.clone();
+        for spec in data {
+            match spec {
+                DataSpec::New { set, key, value, id } => {
+                    let set = match set {
+                        SetRef::Existing(r) => req_id(&dscratch.set_target(r).req, "S"),
+                        SetRef::Literal(s) => s.clone(),
+                    };
+                    let mut d = serde_json::Map::new();
+                    d.insert("@type".into(), json!("AnnotationData"));
+                    if let Some(id) = id {
+                        d.insert("@id".into(), json!(id));
+                    }
+                    d.insert("set".into(), json!(set));
+                    d.insert("key".into(), json!(key));
+                    d.insert("value".into(), serde_json::to_value(value.to_datavalue()).ok()?);
+                    djson.push(serde_json::Value::Object(d));
+                }
+                DataSpec::Existing { set, data } => {
+                    let ts = dscratch.set_target(set);
+                    let su = ts.uid?;
+                    djson.push(json!({"@type": "AnnotationData", "@id": req_id(&dscratch.data_target(su, data).req, "D"), "set": req_id(&ts.req, "S")}));
+                }
+            }
+            let _ = dscratch.apply_dataspec(spec, &mut fx);
+        }
+        obj.insert("data".into(), serde_json::Value::Array(djson));
+        elements.push(serde_json::to_string(&serde_json::Value::Object(obj)).ok()?);
+        if !last || fault == FileFault::None {
+            scratch.apply_sequential(&Op::Annotate { id: id.clone(), target: target.clone(), data: data.clone() });
+        }
+    }
+    let mut text = String::from("[");
+    for (i, e) in elements.iter().enumerate() {
+        if i > 0 {
+            text.push_str(",\n");
+        }
+        if i + 1 == elements.len() {
+            if let FileFault::Truncate(permille) = fault {
+                let mut cut = (e.len() * permille.min(999)) / 1000;
+                while !e.is_char_boundary(cut) {
+                    cut -= 1;
+                }
+                text.push_str(&e[..cut]);
+                return Some(text.into_bytes());
+            }
+        }
+        text.push_str(e);
+    }
+    text.push(']');
+    Some(text.into_bytes())
 }
